@@ -421,6 +421,26 @@ func init() {
 	}
 	in["unicode.IsUpper"] = uni("unicode.IsUpper", unicode.IsUpper, 'A', 'Z')
 	in["unicode.IsLower"] = uni("unicode.IsLower", unicode.IsLower, 'a', 'z')
+	// unicode.IsSpace is a finite set of code points: modelled exactly for
+	// every 32-bit rune value.
+	in["unicode.IsSpace"] = func(fr *frame, a []value) value {
+		switch r := a[0].(type) {
+		case int32:
+			return unicode.IsSpace(r)
+		case sym:
+			ts := fr.ex.ts
+			in := func(lo, hi uint64) *Term {
+				return ts.And(ts.Cmp("bvuge", r.t, ts.Const(32, lo)), ts.Cmp("bvule", r.t, ts.Const(32, hi)))
+			}
+			sp := in(9, 13)
+			for _, c := range []uint64{0x20, 0x85, 0xA0, 0x1680, 0x2028, 0x2029, 0x202f, 0x205f, 0x3000} {
+				sp = ts.Or(sp, ts.Eq(r.t, ts.Const(32, c)))
+			}
+			sp = ts.Or(sp, in(0x2000, 0x200a))
+			return fr.ex.mkval(types.Bool, sp)
+		}
+		panic(engineError{"unicode.IsSpace: bad argument"})
+	}
 	in["unicode/utf8.RuneCountInString"] = func(fr *frame, a []value) value {
 		return utf8.RuneCountInString(concreteStr(fr, a[0], "utf8.RuneCountInString"))
 	}
